@@ -507,7 +507,7 @@ fn gen_crafted(rng: &mut Rng) -> Crafted {
         match rng.below(6) {
             0 => cmds[k].insert_len_ = cmds[k].insert_len_.wrapping_add(rng.range(1, 2000) as u32),
             1 => cmds[k].copy_len_ = rng.next() as u32,
-            2 => cmds[k].dist_prefix_ = rng.next() as u16,
+            2 => cmds[k].dist_prefix_ = ((rng.range(1, 24) as u16) << 10) | (rng.below(1024) as u16), // nbits 1..24: no u32 overflow in distance_index_and_offset
             3 => cmds[k].dist_extra_ = rng.next() as u32 & 0xffffff,
             4 => { cmds.truncate(k); }
             _ => cmds[k].cmd_prefix_ = rng.next() as u16 % 704,
